@@ -143,11 +143,59 @@ def gen_csv2(rng, tier):
     for _ in range(nf):
         a, b = rng.sample(pool, 2)
         fr.append([a, b])
+    # small length scales: the whole network times an exact power of two
+    k = rng.choice([0, 0, 0, 3, 10, 13, 14, 17, 20])
+    sc = 2.0 ** -k
+    jmax = min(11, 25 - k)
+    if fr and rng.random() < 0.3 and jmax >= 4:
+        # one very short fracture (exact dyadic length) next to the long ones; its length
+        # stays above the documented merge tolerance (atol 1e-8, rtol 1e-5 of the
+        # coordinates) of LineFracture / FractureNetwork2d
+        e = 2.0 ** -rng.randint(4, jmax)
+        a = rng.choice(pool)
+        fr.insert(rng.randrange(len(fr) + 1), [a, [a[0] + e, a[1] + rng.choice([0.0, e, -e])]])
+    fr = [[[x * sc for x in p] for p in f] for f in fr]
     with_header = rng.random() < 0.7
     skip = 1 if with_header else 0
     if not with_header and rng.random() < 0.2:
         skip = 1                                           # default reader, first row lost
-    return {"kind": "csv2", "fracs": fr, "with_header": with_header, "skip": skip}
+    return {"kind": "csv2", "fracs": fr, "with_header": with_header, "skip": skip,
+            "scale_exp": k, "defaults": with_header and skip == 1 and rng.random() < 0.7}
+
+
+def gen_csv2p(rng, tier):
+    """Polyline file  FID, PT_X, PT_Y  (written by the harness as documented)."""
+    k = rng.choice([0, 0, 3, 10, 17, 20])
+    sc = 2.0 ** -k
+    npoly = rng.choice([1, 2, 3])
+    ids = rng.sample(range(0, 12), npoly)
+    if rng.random() < 0.6:
+        ids.sort()
+    pool = []
+    while len(pool) < 14:
+        p = [rng.randint(-20, 20) / 4 * sc, rng.randint(-20, 20) / 4 * sc]
+        if p not in pool:
+            pool.append(p)
+    rng.shuffle(pool)
+    blocks = []
+    for fid in ids:
+        n = rng.choice([2, 2, 3, 4, 5]) if rng.random() > 0.08 else 1
+        pts, pool = pool[:n], pool[n:]
+        if blocks and rng.random() < 0.3:
+            pts[0] = blocks[-1][-1][1:]          # starts where the previous polyline ended
+        blocks.append([[fid] + list(p) for p in pts])
+    rows = [r for b in blocks for r in b]
+    interleaved = False
+    if npoly > 1 and rng.random() < 0.1:
+        rows = [r for t in zip(*[b + [None] * 5 for b in blocks]) for r in t if r is not None]
+        interleaved = True
+    return {"kind": "csv2p", "rows": rows, "interleaved": interleaved, "scale_exp": k}
+
+
+def gen_csv2t(rng, tier):
+    """Straight-line file with one extra integer tag column (read with tagcols=[5])."""
+    c = gen_csv2(rng, tier)
+    return {"kind": "csv2t", "fracs": c["fracs"], "tags": [rng.randint(0, 9) for _ in c["fracs"]]}
 
 
 POLY = {  # convex templates, counter-clockwise, integer coordinates
@@ -157,6 +205,11 @@ POLY = {  # convex templates, counter-clockwise, integer coordinates
     6: [[0, 0], [2, -1], [4, 0], [4, 2], [2, 3], [0, 2]],
 }
 NONCONVEX = [[0, 0], [4, 0], [4, 4], [2, 1], [0, 4]]
+
+
+def chamfered(e):
+    """Convex pentagon: a 4 x 4 square with one corner cut by a very short edge."""
+    return [[0, 0], [4, 0], [4, 4 - e], [4 - e, 4], [0, 4]]
 FRAMES = [([1, 0, 0], [0, 1, 0]), ([1, 0, 0], [0, 0, 1]), ([0, 1, 0], [0, 0, 1]),
           ([1, 1, 0], [0, 0, 1]), ([1, 0, 1], [0, 1, 0]), ([1, 1, 0], [-1, 1, 2]),
           ([2, 1, 0], [0, 1, 1])]
@@ -170,6 +223,8 @@ def gen_csv3(rng, tier):
         if rng.random() < 0.12:
             tpl = NONCONVEX
             cc_needed = True
+        elif rng.random() < 0.25:
+            tpl = chamfered(2.0 ** -rng.randint(6, 14))
         else:
             tpl = POLY[rng.choice([3, 4, 4, 5, 6])]
         u, v = rng.choice(FRAMES)
@@ -180,16 +235,21 @@ def gen_csv3(rng, tier):
         if rng.random() < 0.5 and tpl is not NONCONVEX:
             rng.shuffle(pts)
         fr.append(pts)
+    # small length scales: the whole network (and its domain) times an exact power of two
+    k = rng.choice([0, 0, 0, 3, 10, 13, 14, 17, 20])
+    sc = 2.0 ** -k
+    fr = [[[x * sc for x in p] for p in f] for f in fr]
     dom = None
     if rng.random() < 0.7:
-        lo = [float(rng.randint(-40, -20)) / rng.choice([1, 2]) for _ in range(3)]
-        hi = [float(rng.randint(20, 40)) / rng.choice([1, 2]) for _ in range(3)]
+        lo = [sc * float(rng.randint(-40, -20)) / rng.choice([1, 2]) for _ in range(3)]
+        hi = [sc * float(rng.randint(20, 40)) / rng.choice([1, 2]) for _ in range(3)]
         dom = lo + hi
     has_domain = dom is not None
     if rng.random() < 0.1:
         has_domain = not has_domain
     cc = True if not cc_needed else (rng.random() < 0.5)
-    return {"kind": "csv3", "fracs": fr, "domain": dom, "has_domain": has_domain, "cc": cc}
+    return {"kind": "csv3", "fracs": fr, "domain": dom, "has_domain": has_domain, "cc": cc,
+            "scale_exp": k, "defaults": has_domain and dom is not None and cc}
 
 
 # ------------------------------------------------------------------------------------------
@@ -243,8 +303,13 @@ def run_csv2(case):
     try:
         with warnings.catch_warnings():
             warnings.simplefilter("ignore")
-            back, ids = pp.fracture_importer.network_2d_from_csv(
-                path, skip_header=case["skip"], return_frac_id=True)
+            if case.get("defaults"):
+                # as a user would: no optional argument at all; the ids from a second call
+                back = pp.fracture_importer.network_2d_from_csv(path)
+                _, ids = pp.fracture_importer.network_2d_from_csv(path, return_frac_id=True)
+            else:
+                back, ids = pp.fracture_importer.network_2d_from_csv(
+                    path, skip_header=case["skip"], return_frac_id=True)
         res["back"] = {"pts": back._pts.T.tolist(), "edges": back._edges[:2].T.tolist(),
                        "ids": [int(i) for i in ids]}
     except ValueError:
@@ -254,6 +319,104 @@ def run_csv2(case):
         path.unlink()
     res["uniq"] = calls[0] if calls else None
     return res
+
+
+def _spy_uniq(calls):
+    orig = pp.array_operations.uniquify_point_set
+
+    def spy(p, tol=1e-8):
+        r = orig(p, tol=tol)
+        calls.append([np.array(p).T.tolist(), np.array(r[0]).T.tolist(), [int(i) for i in r[2]]])
+        return r
+
+    return orig, spy
+
+
+def run_csv2p(case):
+    path = tmpfile("csv")
+    text = "# FID,PT_X,PT_Y\n" + "".join(f"{r[0]},{r[1]!r},{r[2]!r}\n" for r in case["rows"])
+    with open(path, "w") as f:
+        f.write(text)
+    calls = []
+    orig, spy = _spy_uniq(calls)
+    pp.array_operations.uniquify_point_set = spy
+    res = {"file": text}
+    try:
+        with warnings.catch_warnings():
+            warnings.simplefilter("ignore")
+            back, ids = pp.fracture_importer.network_2d_from_csv(
+                path, polyline=True, return_frac_id=True)
+        res["back"] = {"pts": back._pts.T.tolist(), "edges": back._edges[:2].T.tolist(),
+                       "ids": [int(i) for i in ids]}
+    except ValueError:
+        res["back"] = "ValueErr"
+    finally:
+        pp.array_operations.uniquify_point_set = orig
+        path.unlink()
+    res["uniq"] = calls[0] if calls else None
+    return res
+
+
+def run_csv2t(case):
+    path = tmpfile("csv")
+    text = "# FID,START_X,START_Y,END_X,END_Y,TAG\n" + "".join(
+        f"{i},{a[0]!r},{a[1]!r},{b[0]!r},{b[1]!r},{t}\n"
+        for i, ((a, b), t) in enumerate(zip(case["fracs"], case["tags"])))
+    with open(path, "w") as f:
+        f.write(text)
+    try:
+        with warnings.catch_warnings():
+            warnings.simplefilter("ignore")
+            back = pp.fracture_importer.network_2d_from_csv(path, tagcols=[5])
+        return {"pts": back._pts.T.tolist(), "edges": back._edges.T.tolist()}
+    finally:
+        path.unlink()
+
+
+def oracle_csv2p(case, res):
+    rows = case["rows"]
+    if case["interleaved"] or not rows:
+        return None
+    blocks = {}
+    for r in rows:
+        blocks.setdefault(r[0], []).append(tuple(r[1:]))
+    if any(len(b) < 2 for b in blocks.values()):
+        return None if res["back"] == "ValueErr" else "a one-point polyline was not rejected"
+    back = res["back"]
+    if isinstance(back, str):
+        return f"reading the polyline file raised {back}"
+    exp, eid = [], []
+    for fid in sorted(blocks):
+        b = blocks[fid]
+        for a, c in zip(b, b[1:]):
+            exp.append((a, c))
+            eid.append(fid)
+    got = [(tuple(back["pts"][s]), tuple(back["pts"][e])) for s, e in back["edges"]]
+    if got != exp:
+        return f"segments read back {got} differ from the polylines' segments {exp}"
+    if back["ids"] != eid:
+        return f"fracture ids {back['ids']}, expected {eid}"
+    return None
+
+
+def oracle_csv2t(case, res):
+    got = [(tuple(res["pts"][e[0]]), tuple(res["pts"][e[1]])) for e in res["edges"]]
+    exp = [(tuple(a), tuple(b)) for a, b in case["fracs"]]
+    if got != exp:
+        return f"fractures read back {got} differ from those in the file {exp}"
+    tags = [e[2] if len(e) > 2 else None for e in res["edges"]]
+    if case["fracs"] and tags != case["tags"]:
+        return f"tags read back {tags}, in the file {case['tags']}"
+    return None
+
+
+def coq_csv2p(case, res):
+    rows = csv_rows(res["file"])
+    qtab = ctab_parse([t for r in rows[1:] for t in r])
+    u = res["uniq"]
+    cu = "([], [])" if u is None else f"({clist(u[1], cpt)}, {clist(u[2], cnat)})"
+    back = cres(res["back"], lambda b: f"({cnet2(b['pts'], b['edges'])}, {clist(b['ids'], cz)})")
+    return f"csv2p_agree {qtab} 1%nat {clist(rows, lambda r: clist(r, cstr))} {cu} {back}"
 
 
 def run_csv3(case):
@@ -286,13 +449,18 @@ def run_csv3(case):
 
     pp.PlaneFracture.__init__ = spy_init
     try:
-        back = pp.fracture_importer.network_3d_from_csv(
-            path, has_domain=case["has_domain"], check_convexity=case["cc"])
+        if case.get("defaults"):
+            back = pp.fracture_importer.network_3d_from_csv(path)   # as a user would
+        else:
+            back = pp.fracture_importer.network_3d_from_csv(
+                path, has_domain=case["has_domain"], check_convexity=case["cc"])
         bb = None
         if back.domain is not None:
             b = back.domain.bounding_box
             bb = [float(b[k]) for k in ("xmin", "ymin", "zmin", "xmax", "ymax", "zmax")]
         res["back"] = {"domain": bb, "net": [f.pts.T.tolist() for f in back.fractures]}
+    except AttributeError:
+        res["back"] = "AttributeErr"   # not in the model's enum: tie and oracle report it
     except AssertionError:
         res["back"] = "AssertErr"
     except ValueError:
@@ -472,6 +640,8 @@ def coq_csv3(case, res):
         d = "None" if b["domain"] is None else f"(Some {clist([enc(x) for x in b['domain']], cz)})"
         return f"({d}, {clist(b['net'], cfrac3)})"
 
+    if res["back"] == "AttributeErr":
+        return "false"
     return (f"csv3_agree {ptab} {qtab} {net} {dom} {cbool(case['has_domain'])} "
             f"{clist(rows, lambda r: clist(r, cstr))} {stab} {cres(res['back'], cb)}")
 
@@ -512,7 +682,14 @@ class C47(Prop):
         "checks as an opaque predicate; both are recorded from the real calls and checked. "
         "Tables with zero rows are outside the theorem (numpy reports 'no data'; only the "
         "first name comes back) but inside the tie. Fracture tags and the 2-D domain are not "
-        "part of the csv format. Line splitting / csv quoting / encodings are not modelled.")
+        "part of the csv format. Line splitting / csv quoting / encodings are not modelled. "
+        "Length scales: the networks are also generated at exact power-of-two scales down to "
+        "2^-20 with very short edges and read back with the readers' DEFAULT arguments; the "
+        "2-D merge tolerance (atol 1e-8 plus rtol 1e-5 of the coordinates, documented) is a "
+        "precondition, edges below it are not generated. The polyline reader is modelled and "
+        "tied on harness-written files (one partial theorem: the segments of a single "
+        "polyline); tag columns are covered by the oracle only; the elliptic reader has no "
+        "writer to round-trip with and is not covered.")
     technique = ("Coq proof (codec round-trip theorems over character-level models) + "
                  "vm_compute execution correspondence on real files")
     rule = ("one third txt tables (1-5 columns, 0-7 rows (thorough: up to 30), six formats "
@@ -521,7 +698,11 @@ class C47(Prop):
             "small pool of dyadic points so that end points are shared; with/without header; "
             "default reader on a header-less file), one third 3-D networks (0-3 (7) planar "
             "polygons with 3-6 vertices in 7 plane orientations, shuffled vertices, some "
-            "non-convex; with/without domain; mismatching has_domain); non-trivial = at least "
+            "non-convex; with/without domain; mismatching has_domain); 2-D/3-D networks scaled by 2^-k, k in "
+            "{0,3,10,13,14,17,20}, short fractures / chamfer edges of exact dyadic length, reads "
+            "with default arguments; polyline files (1-3 polylines, ids in any order, shared end "
+            "points, one-point polylines, interleaved rows) and straight files with a tag column "
+            "written by the harness; non-trivial = at least "
             "one row / fracture; distinct by (case, output)")
     trusted = [
         "python number formatting/parsing as print/parse tables computed by the CPython runtime "
@@ -543,22 +724,31 @@ class C47(Prop):
             if k == 0:
                 yield gen_txt(rng, tier)
             elif k == 1:
-                yield gen_csv2(rng, tier)
+                r = rng.random()
+                yield gen_csv2p(rng, tier) if r < 0.2 else gen_csv2t(rng, tier) if r < 0.28 \
+                    else gen_csv2(rng, tier)
             else:
                 yield gen_csv3(rng, tier)
 
     def run_impl(self, case):
-        return {"txt": run_txt, "csv2": run_csv2, "csv3": run_csv3}[case["kind"]](case)
+        return {"txt": run_txt, "csv2": run_csv2, "csv3": run_csv3, "csv2p": run_csv2p,
+                "csv2t": run_csv2t}[case["kind"]](case)
 
     def oracle(self, case, res):
-        return {"txt": oracle_txt, "csv2": oracle_csv2, "csv3": oracle_csv3}[case["kind"]](case, res)
+        return {"txt": oracle_txt, "csv2": oracle_csv2, "csv3": oracle_csv3,
+                "csv2p": oracle_csv2p, "csv2t": oracle_csv2t}[case["kind"]](case, res)
 
     def coq_case(self, case, res):
-        return {"txt": coq_txt, "csv2": coq_csv2, "csv3": coq_csv3}[case["kind"]](case, res)
+        if case["kind"] == "csv2t":
+            return None          # oracle only
+        return {"txt": coq_txt, "csv2": coq_csv2, "csv3": coq_csv3,
+                "csv2p": coq_csv2p}[case["kind"]](case, res)
 
     def nontrivial(self, case, res):
         if case["kind"] == "txt":
             return bool(case["cols"]) and bool(case["cols"][0]["vals"])
+        if case["kind"] == "csv2p":
+            return bool(case["rows"])
         return bool(case["fracs"])
 
     def finding_key(self, case, res, why):
@@ -578,6 +768,8 @@ class C47(Prop):
                     if still_fails(t):
                         cols = t["cols"]
             return dict(case, cols=cols)
+        if case["kind"] == "csv2p":
+            return case
         fr = list(case["fracs"])
         i = 0
         while i < len(fr) and len(fr) > 1:
